@@ -4,6 +4,7 @@ from props.m2common import *  # noqa: F401,F403
 from props.m2common import g, sx, rng_for, fl, close, same, is_err, env_points, ref_value_at
 
 PID = "C08"
+KERNELS = ['K_scale']   # translated from /repo on every run, tied to the model by coq/Gen/<name>_eq.v
 RUNNER = "impl_m2.py"
 N = {"quick": 2500, "thorough": 80000}
 LEVEL_RULE = ("envelopes (plain and FlexTempo) with 1-7 control points, repeated times up to 35 %, values up to +-1e3, curve shapes "
@@ -28,6 +29,9 @@ def gen(seed, index):
         return ["of_points", pts]
     G = g.GE(rng)
     e = G.env()
+    if e[0] == "T" and rng.random() < 0.12:
+        # a trajectory may touch 0 bpm (a fermata written as a tempo): the value 0 is a number like any other here
+        rng.choice(e[1:])[1] = g.hexf(0)
     qs = []
     for _ in range(rng.randint(1, 8)):
         k = rng.choice(["value_at", "value_at", "value_at", "parameter_at"])
